@@ -271,9 +271,9 @@ def apply_op(b, op, inherit=True):
             snap = (Counter(b.stats), [set(x) for x in b.requested])
             inh = lambda: b.stats["spell:str-inherited"] + b.stats["spell:bare-inherited"] + b.stats["spell:uri-inherited"]
             objs = lambda: b.stats["spell:qn"] + b.stats["value:qn-object"]
-            i0, o0 = inh(), objs()
+            i0, o0, u0 = inh(), objs(), b.stats["spell:uri-inherited"]
             [(spell(b, si, nm, True), pyvalue(b, si, val)) for nm, val in new]
-            mixed = inh() > i0 and objs() > o0
+            mixed = inh() > i0 and (objs() > o0 or (b.stats["spell:uri-inherited"] > u0 and inh() - i0 >= 2))
             b.stats, b.requested = snap
             if mixed:
                 b.stats["spell:inherited-withdrawn"] += 1
@@ -317,10 +317,14 @@ def _apply_rec(b, op, inherit):
         n_qn = b.stats["spell:qn"] + b.stats["value:qn-object"] + b.stats["ref:record-object"]
         probe = _Probe(b)
         _apply_rec2(probe, op, True, dry=True)
-        used_inh = (b.stats["spell:str-inherited"] + b.stats["spell:bare-inherited"] + b.stats["spell:uri-inherited"]) > n_inh
+        now_inh = b.stats["spell:str-inherited"] + b.stats["spell:bare-inherited"] + b.stats["spell:uri-inherited"]
+        used_inh = now_inh > n_inh
         used_qn = (b.stats["spell:qn"] + b.stats["value:qn-object"] + b.stats["ref:record-object"]) > n_qn
+        # a full URI compacted through a DOCUMENT namespace is re-homed in the bundle, possibly under a renamed prefix
+        # (q_1) - which may be the very prefix another inherited string of the same call relies on
+        uri_with_other = b.stats["spell:uri-inherited"] > snap[0]["spell:uri-inherited"] and now_inh - n_inh >= 2
         b.stats, b.requested = snap[0], snap[1]
-        if used_inh and used_qn:
+        if used_inh and (used_qn or uri_with_other):
             b.stats["spell:inherited-withdrawn"] += 1
             inherit = False
     return _apply_rec2(b, op, inherit)
